@@ -5,7 +5,7 @@ import depslib
 
 
 def run(ctx):
-    ctx.prove(["Props/%s.vo" % ctx.pid, "Run/eval_deps.vo"])
+    ctx.prove(["Props/%s.vo" % ctx.pid, "Run/eval_deps.vo"], extra_props=["Engine_progress"])   # + deadlock freedom / termination: final states are reachable
     ctx.trusted_base += depslib_trusted()
     depslib.run_engine_check(ctx, ctx.pid, 400 if ctx.quick else 6000)
     contention(ctx)
